@@ -154,7 +154,7 @@ def rule_order(E, R):
             for f in s["fields"]:
                 if f["name"] == "list_matchers":
                     root, ch = chain(f["e"])
-                    if local_name(root) == "scheme" and ch and ch[0]["m"] == "lists" and chain_verdict(ch[1:]) == "ok":
+                    if is_param(root, h, 0) and ch and ch[0]["m"] == "lists" and chain_verdict(ch[1:]) == "ok":
                         clo = [closure_of(x["args"][0]) for x in ch if x["m"] == "map"]
                         ok = bool(clo) and clo[0] is not None and \
                             len(list(calls(clo[0]["body"], r"list_matcher::ListDefinition::new_matcher$"))) == 1
@@ -194,10 +194,10 @@ def rule_order(E, R):
             a0, a1 = c["args"][0], c["args"][1]
             r0, ch0 = chain(a0)
             good = (recv.get("k") == "MethodCall" and recv["m"] in ("get_list_matcher_unchecked", "get_list_matcher")
-                    and local_name(recv["recv"]) == "ctx"
+                    and is_param(recv["recv"], cm[0], 2)
                     and root_is_field(recv["args"][0], "self", "list")
                     and root_is_field(a0, "self", "name") and [x["m"] for x in ch0] == ["as_str"]
-                    and local_name(a1) == "value")
+                    and is_param(a1, cm[0], 1))
         R.check(good, rule, norm(cm[0]["path"]), "calls ctx's matcher for self.list with (self.name, value)",
                 where=cm[0]["span"])
     # the parser takes the list from the scheme by the lhs type and the name from ListName::lex
